@@ -5,17 +5,22 @@
      {"e":"load","r":r,"live":[[k,v]..],"tomb":[k..],"obs":[..]}
      {"e":"ins","r":r,"k":k,"v":v,"obs":[..]}     {"e":"insbot","r":r,"k":k,"obs":[..]}
      {"e":"del","r":r,"k":k,"obs":[..]}           {"e":"merge","r":r,"s":s,"obs":[..]}
+     {"e":"law","a":V,"b":V,"c":V,"obs":[{"b":name,"panic":bool,"ab":V,"ba":V,"aa":V,"abc1":V,"abc2":V,
+                                       "eqc":t,"eqi":t,"eqa":t}..]}      V = {"live":[[k,v]..],"tomb":[k..]}
+     {"e":"ord","a":V,"b":V,"obs":[{"b":name,"panic":bool,"cmp":"lt|eq|gt|none|na","eq":t,"bota":t,
+                                   "botb":t,"defbot":t,"ch":bool}..]}    t = 1 true, 0 false, -1 n/a
      {"e":"eof"}
    obs: one record per backend {"b":name,"ch":bool,"live":[[k,v]..],"keys":[k..],"tomb":[k..],
    "panic":bool} = what replica r reveals (as_reveal_ref) after the call returned.
-   Property-level rule breaks are collected per case in `viol` and printed at eof;
-   implementation-level facts (the `changed` flag, map keys without value) go to `drift`. *)
+   C05 rule breaks are collected per case in `viol`, C01/C02/C03 rule breaks (ACI, returned
+   merge flag, order operations) in `viol2` = {<<case, property, rule>>}; both are printed at
+   eof; implementation-level facts (map keys without value) go to `drift`. *)
 EXTENDS Tombstone, TLC, Json, IOUtils
 
 Rec == ndJsonDeserialize(IOEnv.TRACE)
 
-VARIABLES l, case, viol, drift
-tvars == <<mvars, l, case, viol, drift>>
+VARIABLES l, case, viol, viol2, drift
+tvars == <<mvars, l, case, viol, viol2, drift>>
 Ev == Rec[l]
 
 ToSet(t) == {t[i] : i \in 1..Len(t)}
@@ -24,15 +29,20 @@ Obs(ev) == [i \in 1..Len(ev.obs) |->
               [b |-> o.b, ch |-> o.ch, live |-> ToSet(o.live), keys |-> ToSet(o.keys),
                tomb |-> ToSet(o.tomb), panic |-> o.panic]]
 
-\* implementation-level expectations on the observation of replica r (after the monitor step)
+Val(x) == [live |-> ToSet(x.live), tomb |-> ToSet(x.tomb)]
+LawObs(ev) == [i \in 1..Len(ev.obs) |->
+                 LET o == ev.obs[i] IN
+                 IF o.panic THEN [b |-> o.b, panic |-> TRUE]
+                 ELSE [b |-> o.b, panic |-> FALSE, ab |-> Val(o.ab), ba |-> Val(o.ba), aa |-> Val(o.aa),
+                       abc1 |-> Val(o.abc1), abc2 |-> Val(o.abc2), eqc |-> o.eqc, eqi |-> o.eqi, eqa |-> o.eqa]]
+
+\* implementation-level expectation (not a property): a map key is revealed without a value
 DriftOf(ev, r) ==
     LET obs == Obs(ev) IN
-    (IF \E i \in 1..Len(obs) : ~obs[i].panic /\ Ev.e # "load" /\ obs[i].ch # ChangedFlag(r)
-     THEN {<<case, "changed-flag">>} ELSE {})
-    \cup (IF \E i \in 1..Len(obs) : ~obs[i].panic /\ obs[i].keys # Keys(obs[i].live)
-          THEN {<<case, "map-key-without-value">>} ELSE {})
+    IF \E i \in 1..Len(obs) : ~obs[i].panic /\ obs[i].keys # Keys(obs[i].live)
+    THEN {<<case, "map-key-without-value">>} ELSE {}
 
-TInit == l = 1 /\ case = 0 /\ viol = {} /\ drift = {} /\ MInit(0)
+TInit == l = 1 /\ case = 0 /\ viol = {} /\ viol2 = {} /\ drift = {} /\ MInit(0)
 
 TReset == Ev.e = "reset" /\ MReset(Ev.R) /\ case' = Ev.case /\ UNCHANGED drift
 TLoad == Ev.e = "load" /\ MLoad(Ev.r, ToSet(Ev.live), ToSet(Ev.tomb), Obs(Ev)) /\ UNCHANGED case
@@ -45,13 +55,17 @@ TDel == Ev.e = "del" /\ MDelete(Ev.r, Ev.k, Obs(Ev)) /\ UNCHANGED case
         /\ drift' = drift \cup DriftOf(Ev, Ev.r)
 TMerge == Ev.e = "merge" /\ MMergeFrom(Ev.r, Ev.s, Obs(Ev)) /\ UNCHANGED case
           /\ drift' = drift \cup DriftOf(Ev, Ev.r)
+TLaw == Ev.e = "law" /\ MLaw(Val(Ev.a), Val(Ev.b), Val(Ev.c), LawObs(Ev)) /\ UNCHANGED <<case, drift>>
+TOrd == Ev.e = "ord" /\ MOrd(Val(Ev.a), Val(Ev.b), Ev.obs) /\ UNCHANGED <<case, drift>>
 TEof == Ev.e = "eof" /\ UNCHANGED <<mvars, case, drift>>
         /\ PrintT(<<"VIOL", ToJson(viol)>>) /\ PrintT(<<"DRIFT", ToJson(drift)>>)
+        /\ PrintT(<<"ALSO", ToJson(viol2)>>)
 
 TNext ==
     /\ l <= Len(Rec) /\ l' = l + 1
-    /\ (TReset \/ TLoad \/ TIns \/ TInsBot \/ TDel \/ TMerge \/ TEof)
+    /\ (TReset \/ TLoad \/ TIns \/ TInsBot \/ TDel \/ TMerge \/ TLaw \/ TOrd \/ TEof)
     /\ viol' = viol \cup {<<case', b>> : b \in Broken'}
+    /\ viol2' = viol2 \cup {<<case', x[1], x[2]>> : x \in also'}
 
 TSpec == TInit /\ [][TNext]_tvars
 
